@@ -119,6 +119,10 @@ MC_PRIMS = {
     # composite: a redundant command part-way into an update period, then waiting (the stream must go on)
     'hover_again': (lambda m: (_vsleep(0.15), m.stop(), _vsleep(0.35)), 'composite', None),
     'start_forward_twice': (lambda m: (m.start_forward(0.3), _vsleep(0.15), m.start_forward(0.3), _vsleep(0.35)), 'composite', None),
+    # the same vertical velocity commanded again later (a control loop re-issuing its command while climbing)
+    'start_up_twice': (lambda m: (m.start_up(0.1), _vsleep(0.25), m.start_up(0.1), _vsleep(0.35)), 'composite', None),
+    'climb_then_linear': (lambda m: (m.start_up(0.1), _vsleep(0.35), m.start_linear_motion(0.1, 0.1, 0.1, 10), _vsleep(0.35)),
+                          'composite', None),
 }
 
 
